@@ -21,6 +21,7 @@ HANDLERS = {
     "render": ("harness.py.static_cmd", "render"),
     "exec_py": ("harness.py.exec_cmd", "run"),
     "exec1": ("harness.py.exec_cmd", "run_nolog"),
+    "exec_split": ("harness.py.exec_cmd", "run_split"),
 }
 
 
